@@ -86,7 +86,7 @@ def run(ctx):
             if cls is OP and len(args) == 2:
                 return Abs(OP, length=args[0], code=args[1])
             if cls is CIGAR:
-                return ("CIGAR", list(args[0]) if args else [])
+                return CigarList(args[0] if args else [])
             return NotImplemented
     hooks = CigHooks()
     comp_map = {}
@@ -106,11 +106,11 @@ def run(ctx):
                           "complement() stores into the operations of its "
                           "receiver (%r)" % (stores,))
         res = out[1]
-        ok = out[0] == "return" and isinstance(res, tuple) and \
-            res[0] == "CIGAR" and len(res[1]) == 3 and \
-            all(isinstance(o, Abs) and o.cls is OP for o in res[1])
+        ok = out[0] == "return" and isinstance(res, CigarList) and \
+            len(res) == 3 and \
+            all(isinstance(o, Abs) and o.cls is OP for o in res)
         if ok:
-            got = [(o.attrs["length"], o.attrs["code"]) for o in res[1]]
+            got = [(o.attrs["length"], o.attrs["code"]) for o in res]
             comp_map[code] = got[2][1]
             want = [(3, "P"), (2, "M"), (1, spec.CIGAR_COMPLEMENT[code])]
             ok = got == want
@@ -123,8 +123,8 @@ def run(ctx):
         ctx.oblige(ok)
         if not ok:
             ctx.violation(R, f_c.short, cell, msg)
-        if out[0] == "return" and isinstance(res, tuple):
-            fresh = all(not any(o is i for i in ops) for o in res[1])
+        if out[0] == "return" and isinstance(res, CigarList):
+            fresh = all(not any(o is i for i in ops) for o in res)
             ctx.oblige(fresh)
             if not fresh:
                 ctx.violation(R, f_c.short, cell + ",fresh",
@@ -484,6 +484,10 @@ def run(ctx):
     ctx.assume("overlap values are opaque: X' is the complement of X, '*' is "
                "the placeholder and equals only '*' (Placeholder.__eq__); the "
                "CIGAR code table is decided separately by C12.cigar_complement")
+
+
+class CigarList(list):
+    """model of a CIGAR built by the analysed code"""
 
 
 def fmt_link(d):
